@@ -103,6 +103,32 @@ func checkC18(c *Check) {
 		}
 	}
 	c.Hold("R2", "emitDSN:status-from-stored-error", lit.Pos(), statusOK, "Status/DiagnosticCode are not taken from the stored last error of the failed recipient (keyed by the effective address)")
+	// R2c: the list handed to emitDSN is the per-attempt list of tryDelivery (a local created in that call), not
+	// something that persists across attempts
+	if td := c.In(queueRel, "Queue", "tryDelivery"); td != nil {
+		msg := "tryDelivery does not call emitDSN"
+		for _, pt := range td.Calls(isEmitDSN) {
+			call := td.CallAt(pt, isEmitDSN)
+			msg = ""
+			if len(call.Args) != 3 {
+				msg = "undecided: unexpected arguments"
+				continue
+			}
+			o := objOf(td.Info, call.Args[2])
+			v, isVar := o.(*types.Var)
+			if !isVar || v.IsField() || v.Parent() == nil || v.Pkg() == nil || v.Parent() == v.Pkg().Scope() {
+				msg = "the report is given " + exprStr(call.Args[2]) + ", which outlives the attempt (recipients reported in an earlier attempt are listed again)"
+				continue
+			}
+			// parameters are not per-attempt lists either
+			for _, po := range paramObjs(td.FI) {
+				if po == o {
+					msg = "the report is given a parameter, not the per-attempt failed list"
+				}
+			}
+		}
+		c.Hold("R2", "tryDelivery:per-attempt-list", td.FI.Decl.Pos(), msg == "", msg)
+	}
 	// R1: FinalRecipient provenance
 	fr := field("FinalRecipient")
 	okFR := false
